@@ -100,6 +100,10 @@ def run(ctx):
         for ci, (cl, ct, C) in enumerate(clocks):
             if ctx.quick and (di + ci + ctx.seed) % 3 != 0:
                 continue
+            # thorough: the full cross product is 3.7 M texts (5 h); a seed-dependent 1/16 of the (day, clock) pairs - every day form
+            # still meets ~75 clock forms and every clock form ~12 day forms
+            if not ctx.quick and (di * 31 + ci * 17 + ctx.seed) % 16 != 0:
+                continue
             for ts in tss:
                 combos = [("day clock", dt + " " + ct), ("day at clock", dt + " at " + ct), ("day um clock", dt + " um " + ct),
                           ("clock day", ct + " " + dt), ("clock on day", ct + " on " + dt)]
